@@ -23,7 +23,7 @@ EXPLANATION = (
     'only the key it was asked for, FIFO queues; R6 CRTP tunnel: uplink data = (header,) + payload bytes on function CRTP to STM32, downlink '
     'CRTPPacket(data[0], data[1:]) from function CRTP; the TCP and serial drivers agree.')
 ASSUMPTIONS = ['socket.recv(n) returns at most n bytes', 'queue.Queue is FIFO']
-FLOORS = {'R1': 10, 'R2': 2, 'R3': 5, 'R4': 3, 'R5': 6, 'R6': 8}
+FLOORS = {'R1': 10, 'R2': 2, 'R3': 5, 'R4': 4, 'R5': 6, 'R6': 8}
 
 
 def check(ctx):
@@ -145,6 +145,18 @@ def check(ctx):
         ctx.inst('R4', rdd, 'loop-until-complete', ok_loop, 'the loop continues while bytes are missing; test %s' % conj)
         ctx.inst('R4', rdd, 'request-missing-bytes', ok_req, 'each recv asks for exactly the missing bytes; found %s' % [norm(c) for c in rc])
         ctx.inst('R4', rdd, 'accumulate-in-order', ok_acc, 'received chunks are appended in order, the count of missing bytes drops by the length of the chunk just received, and the buffer is returned')
+
+    STc = rdd.cls
+    timed = []
+    for mth in (STc.methods.values() if STc is not None else []):
+        for c in walk_own(mth.node):
+            if isinstance(c, ast.Call):
+                if method_call(c, 'settimeout') and c.args and norm(c.args[0]) != 'None':
+                    timed.append('%s:%d %s' % (mth.name, c.lineno, norm(c)))
+                if norm(c.func) in ('socket.create_connection', 'create_connection') and (len(c.args) > 1 or any(k.arg == 'timeout' and norm(k.value) != 'None' for k in c.keywords)):
+                    timed.append('%s:%d %s' % (mth.name, c.lineno, norm(c)))
+    ctx.inst('R4', rdd, 'stream-socket-blocks', not timed, 'the stream socket has no timeout: a recv() that times out in the middle of a frame discards the bytes already read and the '
+             'next read takes payload bytes for a length prefix; timeouts set: %s' % (timed or 'none'))
 
     # ---- R5 --------------------------------------------------------------------------------
     R = m.cls(CPX, 'CPXRouter')
